@@ -106,6 +106,7 @@ func decoratedStableSort(p *Prog, fn *ssa.Function, c *ssa.Call, isList func(ssa
 		return isIA && ia.Index == idx && isList(throughLocalCell(ia.X))
 	}
 	// (2) stores into the pairs
+	posMode := false
 	filled := 0
 	for _, b := range fn.Blocks {
 		for _, ins := range b.Instrs {
@@ -173,10 +174,14 @@ func decoratedStableSort(p *Prog, fn *ssa.Function, c *ssa.Call, isList func(ssa
 			if !listElem(itemV, ia.Index) {
 				return true, false, "pair k does not hold Items[k] (another element, or another index)", nil
 			}
-			_, f, base := loadedField(keyV)
-			if f != "StartAt" || base != itemV {
-				if !(f == "StartAt" && listElem(base, ia.Index)) {
-					return true, false, "pair k does not hold the StartAt of Items[k]", nil
+			if stripConv(keyV) == stripConv(ia.Index) {
+				posMode = true // the pair remembers where the cue was: ties are broken by position
+			} else {
+				_, f, base := loadedField(keyV)
+				if f != "StartAt" || base != itemV {
+					if !(f == "StartAt" && listElem(base, ia.Index)) {
+						return true, false, "pair k does not hold the StartAt of Items[k]", nil
+					}
 				}
 			}
 			if !inBoundedLoop(b, ia.Index, true) {
@@ -194,8 +199,18 @@ func decoratedStableSort(p *Prog, fn *ssa.Function, c *ssa.Call, isList func(ssa
 		return true, false, "comparator is not a function literal", nil
 	}
 	less := mc.Fn.(*ssa.Function)
+	if posMode {
+		if why := positionComparator(less, isPairs, itemF, keyF); why != "" {
+			return true, false, why, nil
+		}
+	} else if c.Call.StaticCallee().Name() != "SliceStable" {
+		return true, false, "pairs keyed by start time are sorted with " + c.Call.StaticCallee().String() + ", which is not a stable sort", nil
+	}
 	var ret *ssa.Return
 	for _, b := range less.Blocks {
+		if posMode {
+			break
+		}
 		if r, isR := b.Instrs[len(b.Instrs)-1].(*ssa.Return); isR {
 			if ret != nil {
 				return true, false, "comparator has more than one return", nil
@@ -203,9 +218,13 @@ func decoratedStableSort(p *Prog, fn *ssa.Function, c *ssa.Call, isList func(ssa
 			ret = r
 		}
 	}
-	bo, isBO := ret.Results[0].(*ssa.BinOp)
-	if !isBO {
-		return true, false, "comparator does not return a comparison", nil
+	var bo *ssa.BinOp
+	if !posMode {
+		var isBO bool
+		bo, isBO = ret.Results[0].(*ssa.BinOp)
+		if !isBO {
+			return true, false, "comparator does not return a comparison", nil
+		}
 	}
 	side := func(v ssa.Value) int { // which parameter's pair the key is read from
 		u, isU := v.(*ssa.UnOp)
@@ -227,8 +246,12 @@ func decoratedStableSort(p *Prog, fn *ssa.Function, c *ssa.Call, isList func(ssa
 		}
 		return -1
 	}
-	px, py := side(bo.X), side(bo.Y)
+	px, py := 0, 1
+	if !posMode {
+		px, py = side(bo.X), side(bo.Y)
+	}
 	switch {
+	case posMode:
 	case px < 0 || py < 0:
 		return true, false, "comparator does not compare the start times of pairs i and j", nil
 	case bo.Op == token.LEQ || bo.Op == token.GEQ:
@@ -248,15 +271,31 @@ func decoratedStableSort(p *Prog, fn *ssa.Function, c *ssa.Call, isList func(ssa
 			if !isIA || !isList(throughLocalCell(ia.X)) {
 				continue
 			}
-			u, isU := s.Val.(*ssa.UnOp)
-			if !isU || u.Op != token.MUL {
+			var pairAddr ssa.Value
+			if fv, isF := s.Val.(*ssa.Field); isF && fv.Field == itemF {
+				// for k, p := range pairs { Items[k] = p.item }: the field of the pair loaded whole
+				if ld, isLd := fv.X.(*ssa.UnOp); isLd && ld.Op == token.MUL {
+					pairAddr = ld.X
+				}
+			} else if u, isU := s.Val.(*ssa.UnOp); isU && u.Op == token.MUL {
+				if fa, isFA := u.X.(*ssa.FieldAddr); isFA && fa.Field == itemF {
+					pairAddr = fa.X
+					if cell, isAl := fa.X.(*ssa.Alloc); isAl {
+						// the loop variable's cell holding a copy of pair k
+						for _, r := range *cell.Referrers() {
+							if st2, ok := r.(*ssa.Store); ok && st2.Addr == ssa.Value(cell) {
+								if ld, ok := st2.Val.(*ssa.UnOp); ok && ld.Op == token.MUL {
+									pairAddr = ld.X
+								}
+							}
+						}
+					}
+				}
+			}
+			if pairAddr == nil {
 				return true, false, "an element of the list is assigned something that is not the cue of a pair", nil
 			}
-			fa, isFA := u.X.(*ssa.FieldAddr)
-			if !isFA || fa.Field != itemF {
-				return true, false, "an element of the list is assigned something that is not the cue of a pair", nil
-			}
-			pia, isPIA := fa.X.(*ssa.IndexAddr)
+			pia, isPIA := pairAddr.(*ssa.IndexAddr)
 			if !isPIA || !isPairs(pia.X) || pia.Index != ia.Index {
 				return true, false, "Items[k] is not assigned the cue of pair k (the indices differ)", nil
 			}
@@ -281,5 +320,104 @@ func decoratedStableSort(p *Prog, fn *ssa.Function, c *ssa.Call, isList func(ssa
 			return true, false, "a return is reached after the sort without the cues having been put back", nil
 		}
 	}
+	if posMode {
+		return true, true, "a fresh slice of (Items[k], k) pairs is sorted by start time, then by position (a strict total order: one sorted arrangement, the stable one) and every Items[k] is then assigned the cue of pair k", back[0]
+	}
 	return true, true, "a fresh slice of (Items[k], Items[k].StartAt) pairs is sorted by sort.SliceStable with pairs[i].start < pairs[j].start and every Items[k] is then assigned the cue of pair k: stable, strict, on StartAt", back[0]
+}
+
+// positionComparator: less(i, j) is  if S(i) != S(j) { return S(i) < S(j) }; return pos(i) < pos(j)  where S(x) is
+// pairs[x].item.StartAt and pos(x) the position field of pairs[x].  Returns "" when it is, the reason otherwise.
+func positionComparator(less *ssa.Function, isPairs func(ssa.Value) bool, itemF, posF int) string {
+	pairOf := func(v ssa.Value) (int, bool) { // &pairs[param k]
+		ia, ok := v.(*ssa.IndexAddr)
+		if !ok || !isPairs(ia.X) {
+			return -1, false
+		}
+		for k, par := range less.Params {
+			if ia.Index == ssa.Value(par) {
+				return k, true
+			}
+		}
+		return -1, false
+	}
+	startOf := func(v ssa.Value) int { // pairs[k].item.StartAt
+		_, f, base := loadedField(v)
+		if f != "StartAt" || base == nil {
+			return -1
+		}
+		u, ok := base.(*ssa.UnOp)
+		if !ok || u.Op != token.MUL {
+			return -1
+		}
+		fa, ok := u.X.(*ssa.FieldAddr)
+		if !ok || fa.Field != itemF {
+			return -1
+		}
+		k, ok := pairOf(fa.X)
+		if !ok {
+			return -1
+		}
+		return k
+	}
+	posOf := func(v ssa.Value) int {
+		u, ok := v.(*ssa.UnOp)
+		if !ok || u.Op != token.MUL {
+			return -1
+		}
+		fa, ok := u.X.(*ssa.FieldAddr)
+		if !ok || fa.Field != posF {
+			return -1
+		}
+		k, ok := pairOf(fa.X)
+		if !ok {
+			return -1
+		}
+		return k
+	}
+	nStart, nPos := 0, 0
+	for _, b := range less.Blocks {
+		r, ok := b.Instrs[len(b.Instrs)-1].(*ssa.Return)
+		if !ok {
+			continue
+		}
+		bo, ok := r.Results[0].(*ssa.BinOp)
+		if !ok {
+			return "comparator returns something that is not a comparison"
+		}
+		asc := func(x, y int) bool {
+			return (bo.Op == token.LSS && x == 0 && y == 1) || (bo.Op == token.GTR && x == 1 && y == 0)
+		}
+		if x, y := startOf(bo.X), startOf(bo.Y); x >= 0 && y >= 0 {
+			if !asc(x, y) {
+				return "comparator does not order the start times of (i, j) ascending and strictly"
+			}
+			// reached only where the two starts differ
+			differ := false
+			for _, dc := range dominatingConds(b) {
+				if c, ok := dc.cond.(*ssa.BinOp); ok && startOf(c.X) >= 0 && startOf(c.Y) >= 0 && startOf(c.X) != startOf(c.Y) {
+					if (c.Op == token.NEQ && dc.taken) || (c.Op == token.EQL && !dc.taken) {
+						differ = true
+					}
+				}
+			}
+			if !differ {
+				return "the comparison of start times is not guarded by a test that they differ"
+			}
+			nStart++
+			continue
+		}
+		if x, y := posOf(bo.X), posOf(bo.Y); x >= 0 && y >= 0 {
+			if !asc(x, y) {
+				return "ties are not broken by ascending position of (i, j)"
+			}
+			nPos++
+			continue
+		}
+		return "comparator compares something else than start times and positions of pairs i and j"
+	}
+	if nStart != 1 || nPos != 1 {
+		return "comparator is not: start times when they differ, positions otherwise"
+	}
+	return ""
 }
